@@ -137,7 +137,7 @@ typedef amg<BB, coarsening::as_scalar<coarsening::smoothed_aggregation>::type, r
 typedef amg<HB, coarsening::smoothed_aggregation, relaxation::spai0> AMG_H;
 typedef amg<EB, coarsening::smoothed_aggregation, relaxation::spai0> AMG_E;
 
-struct Out { size_t iters = 0; double res = 0; std::vector<double> x; size_t levels = 0; };
+struct Out { size_t iters = 0; double res = 0; std::vector<double> x; size_t levels = 0; size_t calls = 1; };
 template <class P> size_t nlevels(const P &p) { return amgcl::verif::access::levels(p).size(); }
 
 struct FOut { bool ran = false, threw = false, solved = false; size_t iters = 0; double res = 0, tv = -1; };
@@ -153,6 +153,7 @@ static FMap solve_all(Case &c, const G5 &g, const Csr<double> &A, const std::vec
     vf::SolveSpec sp; sp.maxiter = MAXIT; sp.explicit_res = true;
     auto report = [&](const std::string &nm, const Out &o, vf::SolveSpec s) {
         FOut &fo = out[nm]; fo.ran = true; fo.iters = o.iters; fo.res = o.res;
+        s.maxiter = MAXIT * o.calls;   // every call has the budget MAXIT; the sum must not exceed it
         if (unit) { auto it = unit->find(nm); s.must_converge = s.must_converge && it != unit->end() && it->second.solved; }
         vf::check_solution(c, nm + sfx, A, f, o.x, o.iters, o.res, s, &fo.tv); fo.solved = std::isfinite(fo.tv) && fo.tv <= 1.001e-8;
         maxlev = std::max(maxlev, o.levels); vf::obs_add("formulations_seen", nm); vf::obs_sum(unit ? "rescaled_solves" : "solves");
@@ -162,26 +163,34 @@ static FMap solve_all(Case &c, const G5 &g, const Csr<double> &A, const std::vec
         else vf::sample("solves:" + nm, J().s("formulation", nm).n("block", b).s("family", g.family).n("n", n).n("iters", o.iters).n("reported", o.res).n("true", fo.tv).n("levels", o.levels)); };
     auto guard = [&](const std::string &nm, auto fn) { try { fn(); } catch (const std::exception &e) { out[nm].threw = true; bool unit_threw = unit && unit->count(nm) && unit->at(nm).threw;
         if (!unit_threw) c.fail(nm + sfx + ":exception", e.what()); } };
+    // A fixed budget of 300 iterations is not part of the property ("return a solution ... with a truthful residual"): a formulation that has not
+    // reached the tolerance when the budget runs out (and says so truthfully) is continued from its current iterate, up to 9 more calls; only a
+    // formulation that still has not solved the system after 3000 iterations fails the solution clause.  (Seen on the unchanged tree, thorough
+    // seed 2 idx 403: a 4x4 punched graph-Kronecker SPD system on which the four block-hierarchy formulations report, bitwise alike, 1.09e-7
+    // after 300 iterations.)  The rescaled runs take the same path, so the bitwise comparison with the unit scale is unaffected.
+    auto more = [&](Out &o, auto call) { int rounds = 0;
+        while (std::isfinite(o.res) && o.res > 1e-8 && o.iters >= MAXIT * (size_t)(rounds + 1) && rounds < 9) { size_t it; double rs; std::tie(it, rs) = call(); o.iters += it; o.res = rs; ++rounds; ++o.calls; }
+        if (rounds) { vf::obs_sum("solves_continued_beyond_300_iterations"); vf::obs_max("max_continuation_calls", rounds); } };
     // scalar reference formulation
     guard("scalar", [&] { typedef make_solver<AMG_S, solver::fgmres<SB>> S; S::params p; p.precond.coarse_enough = ce * b; p.solver.maxiter = MAXIT; S s(T, p); Out o; o.x.assign(n, 0.0); std::tie(o.iters, o.res) = s(f, o.x); o.levels = nlevels(s.precond()); vf::SolveSpec s0 = sp; s0.must_converge = false;   // point-wise aggregation of a block system is not promised to converge (observed: stalls at 1e-5 on a 4x4 Kronecker system); the property lists the block formulations
         report("scalar", o, s0); });
     // block value type through the block_matrix adapter, block vectors
     guard("block_adapter", [&] { typedef make_solver<AMG_B, solver::fgmres<BB>> S; S::params p; p.precond.coarse_enough = ce; p.solver.maxiter = MAXIT; S s(adapter::block_matrix<Blk>(T), p); Out o; o.x.assign(n, 0.0);
-        auto F = backend::reinterpret_as_rhs<Blk>(f); auto X = backend::reinterpret_as_rhs<Blk>(o.x); std::tie(o.iters, o.res) = s(F, X); o.levels = nlevels(s.precond()); report("block_adapter", o, sp); });
+        auto F = backend::reinterpret_as_rhs<Blk>(f); auto X = backend::reinterpret_as_rhs<Blk>(o.x); std::tie(o.iters, o.res) = s(F, X); more(o, [&] { return s(F, X); }); o.levels = nlevels(s.precond()); report("block_adapter", o, sp); });
     // make_block_solver: scalar matrix and scalar vectors in, block solver inside
-    guard("make_block_solver", [&] { typedef make_block_solver<AMG_B, solver::fgmres<BB>> S; S::params p; p.precond.coarse_enough = ce; p.solver.maxiter = MAXIT; S s(T, p); Out o; o.x.assign(n, 0.0); std::tie(o.iters, o.res) = s(f, o.x); o.levels = 0; report("make_block_solver", o, sp); });
-    if (kappa > 0) guard("make_block_solver<bicgstab>", [&] { typedef make_block_solver<AMG_B, solver::bicgstab<BB>> S; S::params p; p.precond.coarse_enough = ce; p.solver.maxiter = MAXIT; S s(T, p); Out o; o.x.assign(n, 0.0); std::tie(o.iters, o.res) = s(f, o.x);
+    guard("make_block_solver", [&] { typedef make_block_solver<AMG_B, solver::fgmres<BB>> S; S::params p; p.precond.coarse_enough = ce; p.solver.maxiter = MAXIT; S s(T, p); Out o; o.x.assign(n, 0.0); std::tie(o.iters, o.res) = s(f, o.x); more(o, [&] { return s(f, o.x); }); o.levels = 0; report("make_block_solver", o, sp); });
+    if (kappa > 0) guard("make_block_solver<bicgstab>", [&] { typedef make_block_solver<AMG_B, solver::bicgstab<BB>> S; S::params p; p.precond.coarse_enough = ce; p.solver.maxiter = MAXIT; S s(T, p); Out o; o.x.assign(n, 0.0); std::tie(o.iters, o.res) = s(f, o.x); more(o, [&] { return s(f, o.x); });
         vf::SolveSpec s2 = sp; s2.explicit_res = false; s2.kappa = kappa; report("make_block_solver<bicgstab>", o, s2); });
     // block smoother inside a scalar hierarchy
-    guard("as_block", [&] { typedef make_solver<AMG_ASB, solver::fgmres<SB>> S; S::params p; p.precond.coarse_enough = ce * b; p.precond.coarsening.aggr.block_size = b; p.solver.maxiter = MAXIT; S s(T, p); Out o; o.x.assign(n, 0.0); std::tie(o.iters, o.res) = s(f, o.x); o.levels = nlevels(s.precond()); report("as_block", o, sp); });
+    guard("as_block", [&] { typedef make_solver<AMG_ASB, solver::fgmres<SB>> S; S::params p; p.precond.coarse_enough = ce * b; p.precond.coarsening.aggr.block_size = b; p.solver.maxiter = MAXIT; S s(T, p); Out o; o.x.assign(n, 0.0); std::tie(o.iters, o.res) = s(f, o.x); more(o, [&] { return s(f, o.x); }); o.levels = nlevels(s.precond()); report("as_block", o, sp); });
     // scalar coarsening inside a block hierarchy
     guard("as_scalar", [&] { typedef make_solver<AMG_ASS, solver::fgmres<BB>> S; S::params p; p.precond.coarse_enough = ce; p.precond.coarsening.aggr.block_size = b; p.solver.maxiter = MAXIT; S s(adapter::block_matrix<Blk>(T), p); Out o; o.x.assign(n, 0.0);
-        auto F = backend::reinterpret_as_rhs<Blk>(f); auto X = backend::reinterpret_as_rhs<Blk>(o.x); std::tie(o.iters, o.res) = s(F, X); o.levels = nlevels(s.precond()); report("as_scalar", o, sp); });
+        auto F = backend::reinterpret_as_rhs<Blk>(f); auto X = backend::reinterpret_as_rhs<Blk>(o.x); std::tie(o.iters, o.res) = s(F, X); more(o, [&] { return s(F, X); }); o.levels = nlevels(s.precond()); report("as_scalar", o, sp); });
     // hybrid backend: scalar setup, block storage, scalar solver
-    guard("hybrid", [&] { typedef make_solver<AMG_H, solver::fgmres<SB>> S; S::params p; p.precond.coarse_enough = ce * b; p.precond.coarsening.aggr.block_size = b; p.solver.maxiter = MAXIT; S s(T, p); Out o; o.x.assign(n, 0.0); std::tie(o.iters, o.res) = s(f, o.x); o.levels = nlevels(s.precond()); report("hybrid", o, sp); });
+    guard("hybrid", [&] { typedef make_solver<AMG_H, solver::fgmres<SB>> S; S::params p; p.precond.coarse_enough = ce * b; p.precond.coarsening.aggr.block_size = b; p.solver.maxiter = MAXIT; S s(T, p); Out o; o.x.assign(n, 0.0); std::tie(o.iters, o.res) = s(f, o.x); more(o, [&] { return s(f, o.x); }); o.levels = nlevels(s.precond()); report("hybrid", o, sp); });
     // Eigen block values
     guard("eigen_block", [&] { typedef make_solver<AMG_E, solver::fgmres<EB>> S; S::params p; p.precond.coarse_enough = ce; p.solver.maxiter = MAXIT; S s(adapter::block_matrix<EBlk>(T), p); Out o; o.x.assign(n, 0.0);
-        auto F = backend::reinterpret_as_rhs<EBlk>(f); auto X = backend::reinterpret_as_rhs<EBlk>(o.x); std::tie(o.iters, o.res) = s(F, X); o.levels = nlevels(s.precond()); report("eigen_block", o, sp); });
+        auto F = backend::reinterpret_as_rhs<EBlk>(f); auto X = backend::reinterpret_as_rhs<EBlk>(o.x); std::tie(o.iters, o.res) = s(F, X); more(o, [&] { return s(F, X); }); o.levels = nlevels(s.precond()); report("eigen_block", o, sp); });
     return out;
 }
 
